@@ -125,6 +125,11 @@ func (s c05script) build(qid int) *hs.Prog {
 				if oi%3 == 2 && st.NCols > 0 {
 					op.Vals = op.Vals[:st.NCols-1]
 				}
+				if (qid+si+oi)%9 == 4 {
+					// a surplus of exactly 65536 (or 131072) values: the number of values is what counts,
+					// not its low 16 bits
+					op.Vals = c05wide(st.NCols + 65536*(1+oi%2))
+				}
 			case oBad:
 				for j := 0; j < st.NCols; j++ {
 					if j == 1 {
@@ -541,4 +546,19 @@ func collapse(s string) string {
 		sb.WriteByte(s[i])
 	}
 	return sb.String()
+}
+
+var c05wideRows = map[int][]any{}
+
+// c05wide returns a (shared, read-only) row of n text values.
+func c05wide(n int) []any {
+	if r, ok := c05wideRows[n]; ok {
+		return r
+	}
+	r := make([]any, n)
+	for i := range r {
+		r[i] = "x"
+	}
+	c05wideRows[n] = r
+	return r
 }
